@@ -150,3 +150,13 @@ C(f"{F}:Tokenizer.get_lines", params={**T, "line_numbers": "seq[int]"}, returns=
            "implies(truthy(self._lines), all(result[j] == self._lines.get(line_numbers[j], '') for j in range(len(line_numbers))))"],
   loops={0: {"inv": ["count == _i", "seen >= 0"], "types": {}}},
   raises=[], properties=["C03", "C11", "C12"])
+
+# the constructor ESTABLISHES the class invariant every other contract assumes: nothing cached, nothing pushed back, no macro mode, cursor at 0,
+# over a token stream that has not been read yet (contract of _tokenize: it ends with its only ENDMARKER)
+C(f"{F}:Tokenizer.__init__", params={**T, "tokengen": "gen[Tok]", "path": "str", "verbose": "bool"},
+  requires=["gen_pos_of(tokengen) == 0", "stream_ends_with_endmarker(tokengen)"],
+  ensures=["tk_ok(self)", "self._index == 0 and len(self._tokens) == 0 and len(self._stack) == 0",
+           "not self._call_macro and not self._with_macro and not self._proc_macro", "self._path == path and self._verbose == verbose"],
+  modifies=["self._tokengen", "self._tokens", "self._index", "self._verbose", "self._lines", "self._path", "self._stack", "self._call_macro", "self._with_macro",
+            "self._proc_macro", "self._end_parens", "self._not_body"],
+  raises=[], properties=["C03", "C13"])
